@@ -179,6 +179,10 @@ impl Repr {
         } else {
             self as *const _ as *const u8
         };
+        #[cfg(lean_string_verif)]
+        if self.is_heap_buffer() {
+            crate::verif_hooks::note(crate::verif_hooks::NOTE_READ, ptr, len);
+        }
 
         // SAFETY: data (`ptr`) is valid, aligned, and part of the same contiguous allocated `len`
         // chunk
@@ -653,6 +657,8 @@ impl Repr {
             // SAFETY: We just checked that `self` is HeapBuffer
             let heap = unsafe { self.as_heap_buffer() };
             debug_assert!(heap.is_unique());
+            #[cfg(lean_string_verif)]
+            crate::verif_hooks::note(crate::verif_hooks::NOTE_WRITE, ptr, heap.capacity());
             (ptr, heap.capacity())
         } else {
             let ptr = self as *mut _ as *mut u8;
@@ -702,6 +708,17 @@ impl Repr {
             // - The number of types of buffer is 3, and the remaining is InlineBuffer.
             // - From `#Safety`, `new_len <= MAX_INLINE_SIZE` is true.
             unsafe { self.as_inline_buffer_mut().set_len(new_len) };
+        }
+    }
+
+    /// Current value of the reference count if `self` is a HeapBuffer.
+    #[cfg(all(lean_string_verif, not(loom)))]
+    pub(crate) fn verif_refcount(&self) -> Option<usize> {
+        if self.is_heap_buffer() {
+            // SAFETY: We just checked that `self` is HeapBuffer
+            Some(unsafe { self.as_heap_buffer() }.reference_count().load(Relaxed))
+        } else {
+            None
         }
     }
 
